@@ -33,6 +33,16 @@ type S struct {
 	G map[string]int64
 	H uint8
 	I MyInt
+	// an embedded struct declared BEFORE a field that shadows one of its fields: member syntax
+	// follows Go's rule (the shallowest field wins; Tag is promoted, ID is S's own)
+	Base
+	ID int64
+}
+
+// Base is embedded in S.
+type Base struct {
+	ID  int64
+	Tag string
 }
 
 // value-receiver methods
